@@ -187,8 +187,8 @@ def stmt_expr_sites(P, listpath):
                 yield from expr_sites(s["e"]["v"], p + ["e", "v"], "init")
             else:
                 yield from expr_sites(s["e"], p + ["e"], "init")
-        elif k == "set":
-            yield from expr_sites(s["e"], p + ["e"], "assign")
+        elif k in ("set", "cset"):
+            yield from expr_sites(s["e"], p + ["e"], "assign" if k == "set" else "operand")
             yield from expr_sites(s["lv"], p + ["lv"], "target")
         elif k == "print":
             yield from expr_sites(s["e"], p + ["e"], "argument")
